@@ -111,15 +111,18 @@ func (c *ReplayCache) IsDuplicate(data []byte, tag string) bool {
 			return true
 		}
 		return existingTag != tag
-	} else {
-		c.current[signature] = tag
 	}
 	if existingTag, ok := c.previous[signature]; ok {
+		// Keep the tag of the first sighting across a rotation. Recording the
+		// presenter's tag here would let a replayer, whose first attempt right
+		// after a rotation is rejected, pass on the next attempt.
+		c.current[signature] = existingTag
 		if existingTag == EmptyTag || tag == EmptyTag {
 			return true
 		}
 		return existingTag != tag
 	}
+	c.current[signature] = tag
 	return false
 }
 
